@@ -598,6 +598,9 @@ impl Monitor for C16 {
             self.lex_case(idx, obs)
         }
     }
+    fn boot_mut(&mut self) -> Option<&mut Xstate> {
+        Some(&mut self.boot)
+    }
     fn describe(&mut self, idx: u64) -> String {
         let mut rng = Rng::for_case("C16", self.seed, idx);
         format!("{:?}", self.gen_text(&mut rng))
